@@ -120,6 +120,18 @@ func (sm *SessionManager) delLocal(clientID string) {
 	}
 }
 
+// delLocalSession removes the local entry of clientID only if it still is sess: a connection that
+// ends must not drop the session of a later connection of the same client id. It reports whether
+// the entry was removed.
+func (sm *SessionManager) delLocalSession(clientID string, sess *Session) bool {
+	if val, ok := sm.sessionMap.Load(clientID); ok && val.(*Session) == sess {
+		sm.sessionMap.Delete(clientID)
+		sess.close()
+		return true
+	}
+	return false
+}
+
 func (sm *SessionManager) delDB(clientID string) {
 	err := sm.store.delete(sessionStoreKey(clientID))
 	if err != nil {
